@@ -26,16 +26,21 @@ fn main() {
     if std::env::args().any(|a| a == "handlers") {
         return handlers::run();
     }
-    line_loop(Stream::new(), |s, ws| {
+    // the typed API has no keyspace: the key "exists" from the first successful XADD / group creation on
+    // (what XADD and XGROUP CREATE … MKSTREAM do at command level); a missing key is dumped as `S ~`
+    line_loop((Stream::new(), false), |st, ws| {
         if ws == ["reset"] {
-            *s = Stream::new();
-            return with_dump(s, "ok".into());
+            *st = (Stream::new(), false);
+            return absent(with_dump(&st.0, "ok".into()), st.1);
         }
-        let r = catch_unwind(AssertUnwindSafe(|| step(s, ws)));
+        let r = catch_unwind(AssertUnwindSafe(|| step(&mut st.0, ws)));
         match r {
-            Ok(Some(reply)) => with_dump(s, reply),
+            Ok(Some(reply)) => {
+                if reply == "ok" && (ws[0] == "add" || ws[0] == "create") { st.1 = true; }
+                absent(with_dump(&st.0, reply), st.1)
+            }
             Ok(None) => "bad-op".into(),
-            Err(_) => with_dump(s, "panic".into()),
+            Err(_) => absent(with_dump(&st.0, "panic".into()), st.1),
         }
     });
 }
@@ -114,6 +119,11 @@ fn dump_group(g: &ConsumerGroup) -> String {
     let cons: Vec<String> = cons.into_iter().map(|(c, n)| format!("{}={}", c, n)).collect();
     format!("G {} {} {} {} {} {} {} {}", unname(&g.name), show_id(&last), join_or_dot(by_id), join_or_dot(by_c),
             join_or_dot(cons), total, opt_id(&min), opt_id(&max))
+}
+
+/// a key that does not exist is dumped as `S ~` (an existing empty stream as `S .`)
+fn absent(dump: String, exists: bool) -> String {
+    if exists { dump } else { dump.replacen(" ;; S .", " ;; S ~", 1) }
 }
 
 fn with_dump(s: &Stream, reply: String) -> String {
@@ -272,7 +282,7 @@ mod handlers {
         }
     }
     fn dump(h: &H, reply: String) -> String {
-        match stream(h) { Some(s) => with_dump(&s, reply), None => format!("{} ;; S .", reply) }
+        match stream(h) { Some(s) => with_dump(&s, reply), None => format!("{} ;; S ~", reply) }
     }
     fn bulk(s: &str) -> RespFrame { RespFrame::BulkString(Some(Arc::new(encode(s)))) }
     fn frames(parts: &[&str]) -> Vec<RespFrame> { parts.iter().map(|p| bulk(p)).collect() }
@@ -532,14 +542,16 @@ mod handlers {
             }
             ["prange", g, start, end, count, c] => {
                 let g = group_of(g)?;
-                if *start != "-" { parse_id(start)?; }
-                if *end != "+" { parse_id(end)?; }
+                // bounds go to the handler as written: - + ms-seq ms, "(" prefix, or junk
+                let okb = |t: &str| !t.is_empty() && t.len() <= 48 && t.bytes().all(|b| b.is_ascii_alphanumeric() || b == b'-' || b == b'+' || b == b'(');
+                if !okb(start) || !okb(end) { return None; }
                 num(count)?;
                 let mut p = vec!["XPENDING".to_string(), k.to_string(), g.clone(), start.to_string(), end.to_string(), count.to_string()];
                 if *c != "-" { p.push(cname(num(c)?)); }
                 let missing = !need_group(&g);
                 match on_missing(missing, handle_xpending(st, 0, &frames(&p.iter().map(|x| x.as_str()).collect::<Vec<_>>()))) {
                     Err(s) => s,
+                    Ok(RespFrame::Error(_)) => "refused".into(),
                     Ok(RespFrame::Array(Some(rows))) => {
                         let mut out = Vec::new();
                         for row in rows {
